@@ -95,6 +95,54 @@ class Obj:
     def __repr__(self):
         return 'Obj(%s)' % self.label
 
+    def __eq__(self, other):
+        # structural equality of the modelled objects, when the checker declares one ('__eqkey'); identity otherwise
+        if isinstance(other, (Obj, TextObj)) and '__eqkey' in self.attrs and '__eqkey' in _attrs_of(other):
+            return self.attrs['__eqkey'] == _attrs_of(other)['__eqkey']
+        return self is other
+
+    def __ne__(self, other):
+        return not self.__eq__(other)
+
+    def __hash__(self):
+        return id(self)
+
+
+class TextObj(str):
+    """A text node: a real string (plasTeX text nodes are str subclasses) with mutable attributes; identity matters."""
+    def __new__(cls, text, **attrs):
+        o = str.__new__(cls, text)
+        o.attrs = dict(attrs)
+        return o
+
+    def __reduce_ex__(self, protocol):
+        return (_rebuild_textobj, (str(self),), {'attrs': self.attrs})
+
+    def __repr__(self):
+        return 'Text(%s:%s)' % (self.attrs.get('label', ''), str.__repr__(self))
+
+    def __eq__(self, other):
+        if isinstance(other, (Obj, TextObj)):
+            a, b = self.attrs, _attrs_of(other)
+            if '__eqkey' in a and '__eqkey' in b:
+                return a['__eqkey'] == b['__eqkey']
+            return self is other
+        return str.__eq__(self, other)
+
+    def __ne__(self, other):
+        return not self.__eq__(other)
+
+    def __hash__(self):
+        return id(self)
+
+
+def _rebuild_textobj(text):
+    return TextObj(text)
+
+
+def _attrs_of(o):
+    return o.attrs
+
 
 class Iter:
     """A first-class iterator over known items (iter(list)); shared by `for` and next()."""
@@ -164,6 +212,11 @@ def _freeze(v, _depth=0, _seen=None):
         return ('set',) + tuple(sorted(map(repr, v)))
     if isinstance(v, Iter):
         return ('iter', v.pos, _freeze(v.items, _depth, _seen))
+    if isinstance(v, TextObj):
+        if id(v) in _seen:
+            return ('ref', str(v))
+        _seen.add(id(v))
+        return ('text', str(v), tuple(sorted(((str(k), _freeze(x, _depth + 1, _seen)) for k, x in v.attrs.items()), key=repr)))
     if isinstance(v, Obj):
         if _depth > 6:
             return ('obj', v.label)
@@ -211,6 +264,7 @@ class Interp:
         self._maythrow = 0
         self.inline_depth = inline      # how deep helper calls are interpreted (0 = never)
         self._inline_stack = []
+        self.imprecise = []             # heap mode: calls on heap objects that could not be interpreted (their effects are lost)
         self.model, self.scope = model, scope
         self.h = hooks or Hooks()
         self.max_iter = max_iter
@@ -410,7 +464,7 @@ class Interp:
             if txt not in s.env:
                 for _s, b in self.expr(t.value, s, fork=False):
                     base = b
-            if isinstance(base, Obj):
+            if isinstance(base, (Obj, TextObj)):
                 base.attrs[t.attr] = v
             else:
                 s.env[txt] = v
@@ -426,6 +480,22 @@ class Interp:
                 for _s, i in self.expr(t.slice, s, fork=False):
                     idx = i
             stored = False
+            if self.heap and isinstance(base, Obj) and isinstance(base.cls, M.ClassInfo) and '__items' not in base.attrs and self.model is not None \
+               and not isinstance(t.slice, ast.Slice) and self.model.find_method(base.cls, '__setitem__') is not None \
+               and self.inline_depth > 0 and len(self._inline_stack) < self.inline_depth:
+                # obj[key] = value on a heap object whose class defines __setitem__: interpret that method
+                key = '__val@%d' % len(self._inline_stack)
+                s.env[key] = v
+                call = ast.Call(func=ast.Attribute(value=t.value, attr='__setitem__', ctx=ast.Load()),
+                                args=[t.slice, ast.Name(id=key, ctx=ast.Load())], keywords=[])
+                for x in ast.walk(call):
+                    if not hasattr(x, 'lineno'):
+                        x.lineno, x.col_offset, x.end_lineno, x.end_col_offset = getattr(node, 'lineno', 0), 0, getattr(node, 'lineno', 0), 0
+                res = self._inline_single(call, s)
+                s.env.pop(key, None)
+                if res is None:
+                    self.imprecise.append('%s[...] = ... on a heap object could not be interpreted (line %s)' % (_text(t.value), getattr(node, 'lineno', '?')))
+                return
             if isinstance(t.slice, ast.Slice) and isinstance(base, list) and isinstance(v, (list, tuple)):
                 lo, hi, stp = [self.ev(x, s) if x is not None else None for x in (t.slice.lower, t.slice.upper, t.slice.step)]
                 if all(x is None or isinstance(x, int) for x in (lo, hi, stp)):
@@ -533,6 +603,7 @@ class Interp:
         outs = []
         res = {}
         for s2, it in self.expr(n.iter, s):
+            it = self.materialize(it, s2)
             if isinstance(it, Iter):
                 s2.env['__iter@%d' % n.lineno] = it
             r = self._loop(n, s2, it)
@@ -769,6 +840,48 @@ class Interp:
             body_out = final
         return body_out
 
+    def _inline_single(self, call, s, prop=False):
+        """Interpret a helper call inside an expression when it has exactly one outcome.  A dry run on a copy decides that;
+        the real run then works on `s` itself, so object identities seen by the caller stay valid.  Returns (value,) or None."""
+        saved_prop = getattr(self, '_property_ok', False)
+        self._property_ok = prop
+        try:
+            try:
+                res = self.inline(call, s.fork())
+            except AnalysisError:
+                res = None
+            if res is None or len(res) != 1:
+                return None
+            self._property_ok = prop
+            res = self.inline(call, s)
+        finally:
+            self._property_ok = saved_prop
+        if res is None or len(res) != 1:
+            raise AnalysisError('helper call %s is not deterministic' % _text(call))
+        st, v = res[0]
+        s.env, s.trace, s.assumed, s.flags = st.env, st.trace, st.assumed, st.flags
+        return (v,)
+
+    def materialize(self, v, s):
+        """The items of a heap object whose class defines __iter__ (interpreted on that object); v otherwise."""
+        if self.heap and isinstance(v, Obj) and isinstance(v.cls, M.ClassInfo) and self.model is not None \
+           and self.inline_depth > 0 and len(self._inline_stack) < self.inline_depth and self.model.find_method(v.cls, '__iter__') is not None:
+            key = '__recv@%d' % len(self._inline_stack)
+            s.env[key] = v
+            call = ast.Call(func=ast.Attribute(value=ast.Name(id=key, ctx=ast.Load()), attr='__iter__', ctx=ast.Load()), args=[], keywords=[])
+            for x in ast.walk(call):
+                x.lineno, x.col_offset, x.end_lineno, x.end_col_offset = 0, 0, 0, 0
+            res = self._inline_single(call, s)
+            s.env.pop(key, None)
+            if res is not None:
+                r = res[0]
+                if isinstance(r, Iter):
+                    return list(r.items[r.pos:])
+                if isinstance(r, (list, tuple)):
+                    return list(r)
+            return TOP
+        return v
+
     def _call_args(self, call, s):
         """Evaluated (positional, keyword) arguments of a call; *seq and **map are spread when known.
         Returns None when a starred argument is not known."""
@@ -870,7 +983,12 @@ class Interp:
     def inline(self, call, s):
         """Interpret a call to a helper of the analysed code in place.
         Returns [(state, value)] or None when the call is not inlined."""
-        if self.inline_depth <= 0 or len(self._inline_stack) >= self.inline_depth:
+        if self.inline_depth <= 0:
+            return None
+        if len(self._inline_stack) >= self.inline_depth:
+            if self.heap and self._callee(call, s) is not None:
+                self._receiver = None
+                self.imprecise.append('inline depth %d exhausted at %s (line %s)' % (self.inline_depth, _text(call.func), getattr(call, 'lineno', '?')))
             return None
         fname = _text(call.func)
         res = self._callee(call, s)
@@ -881,8 +999,10 @@ class Interp:
         flt = getattr(self.h, 'should_inline', None)
         if flt is not None and not flt(fname, node, info):
             return None
-        if (node in self._inline_stack and receiver is None) or self._inline_stack.count(node) >= 4 \
+        if (node in self._inline_stack and receiver is None and not self.heap) or self._inline_stack.count(node) >= 4 \
            or any(isinstance(x, (ast.Yield, ast.YieldFrom)) for x in M.walk_no_nested(node)):
+            if self.heap:
+                self.imprecise.append('recursive helper %s not interpreted (line %s)' % (fname, getattr(call, 'lineno', '?')))
             return None
         ak = self._call_args(call, s)
         if ak is None:
@@ -1130,7 +1250,12 @@ class Interp:
             # not assigned anywhere in the analysed function
             if n.id not in self._locals():
                 r = self.model.resolve_name(self.scope, n.id)
-                return self._from_model(r)
+                v = self._from_model(r)
+                if v is TOP and n.id in _BUILTIN_TYPES:
+                    return _BUILTIN_TYPES[n.id]
+                return v
+        if n.id in _BUILTIN_TYPES:
+            return _BUILTIN_TYPES[n.id]
         return TOP
 
     def _locals(self):
@@ -1206,19 +1331,8 @@ class Interp:
                 call = ast.Call(func=ast.Attribute(value=n.value, attr=n.attr, ctx=ast.Load()), args=[], keywords=[])
                 ast.copy_location(call, n)
                 ast.copy_location(call.func, n)
-                f2 = s.fork()
-                self._property_ok = True
-                try:
-                    res = self.inline(call, f2)
-                except AnalysisError:
-                    res = None
-                finally:
-                    self._property_ok = False
-                if res is not None and len(res) == 1:
-                    st, v = res[0]
-                    s.env, s.trace, s.assumed, s.flags = st.env, st.trace, st.assumed, st.flags
-                    return v
-                return TOP
+                res = self._inline_single(call, s, prop=True)
+                return res[0] if res is not None else TOP
         return self.getattr(base, n.attr, n, s)
 
     def getattr(self, base, attr, n, s):
@@ -1228,6 +1342,8 @@ class Interp:
             return TOP if M.is_unknown(v) else v
         if isinstance(base, TokStr) and attr in base._attrs:
             return base._attrs[attr]
+        if isinstance(base, TextObj) and attr in base.attrs:
+            return base.attrs[attr]
         if isinstance(base, Obj):
             if attr in base.attrs:
                 return base.attrs[attr]
@@ -1536,7 +1652,7 @@ class Interp:
                 return (a is b) == isinstance(op, ast.Is)
             if isinstance(a, (list, dict)) and isinstance(b, (list, dict)):
                 return (a is b) == isinstance(op, ast.Is)      # identity of tracked containers
-            if isinstance(a, Obj) or isinstance(b, Obj):
+            if isinstance(a, (Obj, TextObj)) or isinstance(b, (Obj, TextObj)):
                 if a is TOP or b is TOP or isinstance(a, Sym) or isinstance(b, Sym):
                     return None
                 return (a is b) == isinstance(op, ast.Is)
@@ -1613,16 +1729,9 @@ class Interp:
             return None if r is NONE else r
         if self.inline_depth > 0 and len(self._inline_stack) < self.inline_depth:
             # helper used inside an expression: inline only when it has a single outcome
-            f2 = s.fork()
-            nst = self.nstates
-            try:
-                res = self.inline(n, f2)
-            except AnalysisError:
-                res = None
-            if res is not None and len(res) == 1:
-                st, v = res[0]
-                s.env, s.trace, s.assumed, s.flags = st.env, st.trace, st.assumed, st.flags
-                return v
+            res = self._inline_single(n, s)
+            if res is not None:
+                return res[0]
         if fname == 'iter' and 'iter' not in s.env and len(args) == 1 and not kwargs:
             if isinstance(args[0], (list, tuple)):
                 return Iter(args[0])
@@ -1665,12 +1774,23 @@ class Interp:
             return Inst(fval, args)
         if isinstance(fval, tuple) and len(fval) == 3 and fval[0] == 'boundmethod':
             _, recv, meth = fval
-            return self._builtin_method(recv, meth, args, kwargs)
+            self._pending_exc = None
+            r = self._builtin_method(recv, meth, args, kwargs)
+            if self._pending_exc and self.precise_exc:
+                s.env['__exc'] = self._pending_exc
+            return r
         if isinstance(n.func, ast.Name) and n.func.id == 'dict' and 'dict' not in s.env and not args and kwargs:
             return dict(kwargs)
         if isinstance(n.func, ast.Name) and n.func.id == 'len' and 'len' not in s.env and len(args) == 1 \
            and isinstance(args[0], (list, tuple, dict)) and not kwargs:
             return len(args[0])
+        if isinstance(n.func, ast.Name) and n.func.id in ('enumerate', 'list', 'tuple', 'len', 'sorted', 'reversed', 'iter') and n.func.id not in s.env \
+           and args and isinstance(args[0], Obj):
+            args = [self.materialize(args[0], s)] + list(args[1:])
+            if n.func.id == 'iter' and isinstance(args[0], list):
+                return Iter(args[0])
+            if n.func.id == 'len' and isinstance(args[0], list):
+                return len(args[0])
         if isinstance(n.func, ast.Name) and n.func.id not in s.env:
             b = _PURE.get(n.func.id)
             if b is not None and all(is_concrete(a) for a in args) and not kwargs:
@@ -1710,6 +1830,22 @@ class Interp:
                 return None
             if meth == 'copy':
                 return list(recv)
+            if meth in ('index', 'count') and len(args) >= 1 and not any(a is TOP or isinstance(a, Sym) for a in args):
+                try:
+                    return getattr(recv, meth)(*args)       # Python equality: the modelled objects define theirs
+                except ValueError:
+                    self._pending_exc = 'ValueError'
+                    return TOP
+            if meth == 'remove' and len(args) == 1 and not (args[0] is TOP or isinstance(args[0], Sym)):
+                try:
+                    recv.remove(args[0])
+                    return None
+                except ValueError:
+                    self._pending_exc = 'ValueError'
+                    return TOP
+            if meth == 'reverse' and not args:
+                recv.reverse()
+                return None
             return TOP
         if isinstance(recv, dict):
             if meth == 'get' and args and is_concrete(args[0]):
@@ -1738,6 +1874,9 @@ class Interp:
 
 _NOTHROW = {'log', 'logging', 'status', 'stacklog', 'macrolog', 'tokenlog', 'digestlog', 'grouplog', 'deflog', 'warnings'}
 _NOTHROW_CALLS = {'isinstance', 'issubclass', 'type', 'id', 'len', 'repr', 'str', 'hasattr', 'callable', 'print'}
+
+_BUILTIN_TYPES = {'str': str, 'int': int, 'float': float, 'list': list, 'dict': dict, 'tuple': tuple, 'bool': bool, 'bytes': bytes,
+                  'set': set, 'frozenset': frozenset, 'object': object, 'slice': slice}
 
 _PURE = {'len': len, 'int': int, 'str': str, 'bool': bool, 'ord': ord, 'chr': chr,
          'abs': abs, 'min': min, 'max': max, 'list': list, 'tuple': tuple,
